@@ -264,16 +264,27 @@ size_t varintRLEGetRunCount(const uint8_t *src, size_t encodedSize) {
     size_t runs = 0;
 
     while (ptr < end) {
-        size_t runLen;
+        /* Bounded reads: a truncated final run is not counted and nothing
+         * at or beyond 'end' is touched */
+        uint64_t runLen;
         uint64_t value;
-        size_t consumed = varintRLEDecodeRun(ptr, &runLen, &value);
+        size_t remaining = (size_t)(end - ptr);
+        varintWidth lenWidth = varintTaggedGet(
+            ptr, remaining > 9 ? 9 : (int32_t)remaining, &runLen);
+        if (lenWidth == 0 || runLen == 0) {
+            break;
+        }
 
-        if (runLen == 0 || consumed == 0) {
+        remaining -= lenWidth;
+        varintWidth valWidth =
+            varintTaggedGet(ptr + lenWidth,
+                            remaining > 9 ? 9 : (int32_t)remaining, &value);
+        if (valWidth == 0) {
             break;
         }
 
         runs++;
-        ptr += consumed;
+        ptr += lenWidth + valWidth;
     }
 
     return runs;
